@@ -24,11 +24,49 @@ use core::future::Future;
 use core::pin::Pin;
 use core::time::Duration;
 use octseq::Octets;
+#[cfg(not(domain_verif))]
 use std::time::Instant;
+#[cfg(domain_verif)]
+use self::verif_clock::Instant;
 use tokio::io::{AsyncRead, AsyncReadExt, AsyncWrite, AsyncWriteExt};
 use tokio::sync::{mpsc, oneshot};
 use tokio::time::sleep;
 use tracing::trace;
+
+//------------ Verification hook ----------------------------------------------
+
+/// Verification hook (only with `--cfg domain_verif`): the connection timers
+/// are measured with tokio's clock instead of `std::time::Instant`, so that
+/// they follow a paused (virtual) test clock. A paused clock stands still
+/// while tasks run, whereas the transport's loop relies on time moving on
+/// between two readings (`elapsed > timeout` after having slept for the
+/// remainder); `elapsed` therefore reports one nanosecond more than the
+/// virtual clock. Without the cfg nothing changes.
+#[cfg(domain_verif)]
+mod verif_clock {
+    use core::time::Duration;
+
+    /// Stand-in for `std::time::Instant` on tokio's clock.
+    #[derive(Clone, Copy, Debug)]
+    pub struct Instant(tokio::time::Instant);
+
+    impl Instant {
+        /// Current (possibly virtual) time.
+        pub fn now() -> Self {
+            Self(tokio::time::Instant::now())
+        }
+
+        /// Time since this instant, strictly positive.
+        pub fn elapsed(&self) -> Duration {
+            self.0.elapsed() + Duration::from_nanos(1)
+        }
+
+        /// Time between two instants.
+        pub fn duration_since(&self, earlier: Self) -> Duration {
+            self.0.duration_since(earlier.0)
+        }
+    }
+}
 
 //------------ Configuration Constants ----------------------------------------
 
